@@ -5,6 +5,7 @@ import Mimic.Extracted.Types
 import Mimic.Extracted.ParsersCode
 import MimicProofs.Types
 import Mimic.Params
+import MimicProofs.Packets
 set_option linter.unusedSimpArgs false
 set_option linter.unusedVariables false
 /-!
@@ -15,20 +16,9 @@ chose is enough (the loop terminates for every input), so the `none` of exhauste
 -/
 namespace MimicProofs.ParsersCode
 open Mimic.Py Mimic.Extracted.ParsersCode MimicProofs.Types
+open Mimic.Params (PType PVal readTypes readValues readValue readParams parseQuery)
 
 /-! ### `read_str_null` -/
-
-/-- one iteration of the translated loop body -/
-def nulStep : Bytes × Bytes → Option (Step (Bytes × Bytes) (Bytes × Bytes)) := fun (data, r_1) =>
-    match Mimic.Py.readN 1 r_1 with
-    | none => none
-    | some (data_2, r_3) =>
-      let b : Bytes := data_2
-      if ((b == ([0] : Bytes)) || (!(!(b).isEmpty))) then
-        some (Mimic.Py.Step.ret (data, r_3))
-      else
-        let data : Bytes := (data ++ b)
-        some (Mimic.Py.Step.next (data, r_3))
 
 theorem loopM_congr {σ α : Type} (n : Nat) (s : σ) (f g : σ → Option (Step σ α)) (h : ∀ s, f s = g s) :
     Mimic.Py.loopM n s f = Mimic.Py.loopM n s g := by
@@ -40,13 +30,13 @@ theorem readN_one (r : Bytes) : Mimic.Py.readN 1 r = some (r.take 1, r.drop 1) :
 
 /-- the loop with enough fuel computes the model's `readNul`, accumulating onto `acc` -/
 theorem nul_loop (r acc : Bytes) (fuel : Nat) (h : r.length < fuel) :
-    Mimic.Py.loopM fuel (acc, r) nulStep =
+    Mimic.Py.loopM fuel (acc, r) read_str_null_loop1 =
       some (some (Step.ret (acc ++ (Mimic.Wire.readNul r).1, (Mimic.Wire.readNul r).2))) := by
   induction r generalizing acc fuel with
   | nil =>
     cases fuel with
     | zero => omega
-    | succ n => simp [Mimic.Py.loopM, nulStep, readN_one, Mimic.Wire.readNul]
+    | succ n => simp [Mimic.Py.loopM, read_str_null_loop1, readN_one, Mimic.Wire.readNul]
   | cons b rest ih =>
     cases fuel with
     | zero => simp at h
@@ -54,10 +44,10 @@ theorem nul_loop (r acc : Bytes) (fuel : Nat) (h : r.length < fuel) :
       have hl : rest.length < n := by simp at h; omega
       by_cases hb : b = 0
       · subst hb
-        simp [Mimic.Py.loopM, nulStep, readN_one, Mimic.Wire.readNul]
+        simp [Mimic.Py.loopM, read_str_null_loop1, readN_one, Mimic.Wire.readNul]
       · have hne : ([b] == ([0] : Bytes)) = false := by
           simp [hb]
-        simp only [Mimic.Py.loopM, nulStep, readN_one, List.take_succ_cons, List.take_zero, List.drop_succ_cons, List.drop_zero, hne,
+        simp only [Mimic.Py.loopM, read_str_null_loop1, readN_one, List.take_succ_cons, List.take_zero, List.drop_succ_cons, List.drop_zero, hne,
           List.isEmpty_cons, Bool.not_false, Bool.not_true, Bool.or_false]
         simp only [Bool.false_eq_true, if_false]
         rw [ih (acc ++ [b]) n hl]
@@ -67,11 +57,11 @@ theorem nul_loop (r acc : Bytes) (fuel : Nat) (h : r.length < fuel) :
 theorem read_str_null_eq (r : Bytes) : read_str_null r = some (Mimic.Wire.readNul r) := by
   unfold read_str_null
   dsimp only
-  rw [loopM_congr _ _ _ nulStep (by intro ⟨d, r⟩; rfl), nul_loop r [] (r.length + 1) (by omega)]
+  rw [nul_loop r [] (r.length + 1) (by omega)]
   simp
 
 /-- termination stated on its own: the fuel chosen by the translator is never exhausted -/
-theorem read_str_null_terminates (r : Bytes) : Mimic.Py.loopM (r.length + 1) (([] : Bytes), r) nulStep ≠ none := by
+theorem read_str_null_terminates (r : Bytes) : Mimic.Py.loopM (r.length + 1) (([] : Bytes), r) read_str_null_loop1 ≠ none := by
   rw [nul_loop r [] (r.length + 1) (by omega)]; simp
 
 /-! ### fixed-layout statement commands -/
@@ -150,5 +140,470 @@ theorem read_param_value_eq (E : Env (List Char)) (r : Bytes) (cs code : Nat) (u
     by_cases c6 : code = 6
     · simp [c6, toPVal]
     · simp [c1, c244, c2, c3, c8, c4, c5, c6]
+
+/-! ### `_read_params` -/
+
+abbrev Str := List Char
+
+theorem forM_congr {α σ : Type} (l : List α) (s : σ) (f g : α → σ → Option σ) (h : ∀ a s, f a s = g a s) :
+    Mimic.Py.forM l s f = Mimic.Py.forM l s g := by
+  have : f = g := funext fun a => funext fun s => h a s
+  rw [this]
+
+theorem and128 : ∀ f : Fin 256, decide ((f.val &&& 128) > 0) = decide (f.val ≥ 128) := by decide +kernel
+
+theorem byte_and128 (f : UInt8) : decide ((f.toNat &&& 128) > 0) = decide (f.toNat ≥ 128) :=
+  and128 ⟨f.toNat, f.toNat_lt⟩
+
+theorem readUInt_one (r : Bytes) : Mimic.Wire.readUInt 1 r = match r with | [] => none | b :: rest => some (b.toNat, rest) := by
+  cases r with
+  | nil => rfl
+  | cons b rest => simp [Mimic.Wire.readUInt, Mimic.Wire.takeN, Mimic.Wire.leVal]
+
+/-- `_read_param_type` -/
+theorem read_param_type_eq (E : Env Str) (r : Bytes) :
+    read_param_type E r = match r with
+      | t :: f :: rest => if E.validType t.toNat then some ((t.toNat, decide (f.toNat ≥ 128)), rest) else none
+      | _ => none := by
+  unfold read_param_type
+  simp only [read_uint_1_eq, readUInt_one]
+  match r with
+  | [] => rfl
+  | [t] => simp only []; cases E.validType t.toNat <;> rfl
+  | t :: f :: rest => simp only [byte_and128]; cases E.validType t.toNat <;> rfl
+
+def tyOut (names : List Str) (ts : List PType) : List (Str × Nat × Bool) :=
+  (names.zip ts).map (fun x => (x.1, x.2.code, x.2.unsigned))
+
+open Mimic.Results (optAll)
+
+theorem types_loop (E : Env Str) (caps cs : Nat) (valid : List Nat) (hv : ∀ n, E.validType n = valid.contains n)
+    (hE : E.decode cs [] = some E.empty) (l : List Nat) :
+    ∀ (acc : List (Str × Nat × Bool)) (r : Bytes),
+    Mimic.Py.forM l (acc, r) (read_params_loop1 E caps cs) =
+      match readTypes valid (Mimic.Py.hasBit caps 27) l.length r with
+      | none => none
+      | some (ts, r') =>
+        match optAll (ts.map (fun t => E.decode cs t.name)) with
+        | none => none
+        | some names => some (acc ++ tyOut names ts, r') := by
+  induction l with
+  | nil => intro acc r; simp [Mimic.Py.forM, readTypes, optAll, tyOut]
+  | cons a l ih =>
+    intro acc r
+    simp only [Mimic.Py.forM, read_params_loop1, read_param_type_eq, List.length_cons]
+    match r with
+    | [] => simp [readTypes]
+    | [t] => simp [readTypes]
+    | t :: f :: rest =>
+      simp only [readTypes, hv]
+      by_cases hval : valid.contains t.toNat
+      · simp only [hval, if_true]
+        by_cases hq : Mimic.Py.hasBit caps 27
+        · simp only [hq, if_true, read_str_len_eq]
+          cases hd : Mimic.Wire.decStr rest with
+          | none => simp
+          | some p =>
+            obtain ⟨nm, r2⟩ := p
+            simp only
+            cases hdec : E.decode cs nm with
+            | none =>
+              simp only
+              cases readTypes valid true l.length r2 with
+              | none => simp
+              | some q => obtain ⟨ts, r3⟩ := q; simp [optAll, hdec]
+            | some name =>
+              simp only
+              have := ih (acc ++ [(name, t.toNat, decide (f.toNat ≥ 128))]) r2
+              simp only [read_params_loop1, read_param_type_eq, hq] at this
+              rw [this]
+              cases readTypes valid true l.length r2 with
+              | none => simp
+              | some q =>
+                obtain ⟨ts, r3⟩ := q
+                simp only [Option.map, List.map_cons, optAll, hdec]
+                cases optAll (ts.map (fun t => E.decode cs t.name)) with
+                | none => simp
+                | some names => simp [tyOut]
+        · simp only [hq, Bool.false_eq_true, if_false]
+          have := ih (acc ++ [(E.empty, t.toNat, decide (f.toNat ≥ 128))]) rest
+          simp only [read_params_loop1, read_param_type_eq, hq] at this
+          rw [this]
+          cases readTypes valid false l.length rest with
+          | none => simp
+          | some q =>
+            obtain ⟨ts, r3⟩ := q
+            simp only [Option.map, List.map_cons, optAll, hE]
+            cases optAll (ts.map (fun t => E.decode cs t.name)) with
+            | none => simp
+            | some names => simp [tyOut]
+      · have hval' : t.toNat ∉ valid := by simpa using hval
+        simp [hval']
+
+theorem bit_test : ∀ (x : Fin 256) (k : Fin 8), ((x.val &&& (1 <<< k.val)) != 0) = decide ((x.val / 2 ^ k.val) % 2 = 1) := by
+  decide +kernel
+
+theorem is_flipped_eq (bm : NullBitmap Str) (i : Nat) (h0 : bm.offset = 0) (hi : i / 8 < bm.bitmap.length) :
+    NullBitmap_is_flipped bm i = some (Mimic.Results.isFlipped 0 bm.bitmap i) := by
+  unfold NullBitmap_is_flipped NullBitmap_pos Mimic.Py.byteAt Mimic.Results.isFlipped
+  simp only [h0, Nat.add_zero]
+  have hb : bm.bitmap[i / 8]? = some (bm.bitmap[i / 8]) := List.getElem?_eq_getElem hi
+  simp only [hb, Option.map_some, List.getD_eq_getElem?_getD, Option.getD_some]
+  have := bit_test ⟨(bm.bitmap[i / 8]).toNat, (bm.bitmap[i / 8]).toNat_lt⟩ ⟨i % 8, Nat.mod_lt _ (by omega)⟩
+  simp only at this
+  rw [this]
+
+def ofPVal : PVal → Val Str
+  | .null => .none
+  | .int z => .int z
+  | .str s => .str s
+  | .flt b => .flt b
+
+theorem ofPVal_toPVal (v : Val Str) : ofPVal (toPVal v) = v := by cases v <;> rfl
+
+def bufFn (buffers : Option (List (Nat × Bytes))) : Nat → Option Bytes :=
+  fun i => match buffers with | some d => Mimic.Py.dictGet d i | none => none
+
+def toPT (p : Str × Nat × Bool) : PType := { code := p.2.1, unsigned := p.2.2, name := [] }
+
+def valOut (pts : List (Str × Nat × Bool)) (vals : List PVal) : List (Option Str × Val Str) :=
+  (pts.zip vals).map (fun x => (some x.1.1, ofPVal x.2))
+
+/-- the long-data test `buffers and i in buffers` is "a buffer exists for i" -/
+theorem buf_test (buffers : Option (List (Nat × Bytes))) (i : Nat) :
+    ((match buffers with | some x => !x.isEmpty | none => false) && (match buffers with | some d => (Mimic.Py.dictGet d i).isSome | none => false))
+      = (bufFn buffers i).isSome := by
+  cases buffers with
+  | none => rfl
+  | some d =>
+    cases d with
+    | nil => simp [bufFn, Mimic.Py.dictGet]
+    | cons x xs => simp [bufFn]
+
+theorem read_params_loop2_one (E : Env Str) (cs : Nat) (buffers : Option (List (Nat × Bytes))) (bm : NullBitmap Str) (h0 : bm.offset = 0)
+    (s : Nat) (nm : Str) (code : Nat) (u : Bool) (acc : List (Option Str × Val Str)) (r : Bytes) (hs : s / 8 < bm.bitmap.length) :
+    read_params_loop2 E cs buffers bm (s, (nm, code, u)) (acc, r) =
+      if Mimic.Results.isFlipped 0 bm.bitmap s then some (acc ++ [(some nm, Val.none)], r)
+      else match bufFn buffers s with
+        | some data => (E.decode cs data).map (fun t => (acc ++ [(some nm, Val.str t)], r))
+        | none => (read_param_value E r cs code u).map (fun x => (acc ++ [(some nm, x.1)], x.2)) := by
+  simp only [read_params_loop2, is_flipped_eq bm s h0 hs, buf_test]
+  by_cases hf : Mimic.Results.isFlipped 0 bm.bitmap s
+  · simp [hf]
+  · simp only [hf, Bool.false_eq_true, if_false]
+    cases buffers with
+    | none =>
+      simp only [bufFn, Option.isSome_none, Bool.false_eq_true, if_false]
+      cases read_param_value E r cs code u with
+      | none => rfl
+      | some q => obtain ⟨v, r2⟩ := q; rfl
+    | some d =>
+      simp only [bufFn]
+      by_cases hsome : (Mimic.Py.dictGet d s).isSome
+      · obtain ⟨data, hdata⟩ := Option.isSome_iff_exists.mp hsome
+        have hne : d.isEmpty = false := by
+          cases d with
+          | nil => simp [Mimic.Py.dictGet] at hdata
+          | cons _ _ => rfl
+        simp only [hdata, hne, Option.isSome_some, Bool.not_false, Bool.and_self, Bool.and_true, if_true]
+        cases E.decode cs data <;> rfl
+      · have hn : Mimic.Py.dictGet d s = none := by simpa using hsome
+        simp only [hn, Option.isSome_none, Bool.and_false, Bool.false_eq_true, if_false]
+        cases read_param_value E r cs code u with
+        | none => rfl
+        | some q => obtain ⟨v, r2⟩ := q; rfl
+
+theorem vals_loop (E : Env Str) (cs : Nat) (buffers : Option (List (Nat × Bytes))) (bm : NullBitmap Str) (h0 : bm.offset = 0)
+    (pts : List (Str × Nat × Bool)) :
+    ∀ (s : Nat) (acc : List (Option Str × Val Str)) (r : Bytes), (∀ j, j < pts.length → (s + j) / 8 < bm.bitmap.length) →
+    Mimic.Py.forM ((List.range' s pts.length).zip pts) (acc, r) (read_params_loop2 E cs buffers bm) =
+      match readValues (E.decode cs) (bufFn buffers) (pts.map toPT)
+              ((List.range' s pts.length).map (Mimic.Results.isFlipped 0 bm.bitmap)) s r with
+      | none => none
+      | some (vals, r') => some (acc ++ valOut pts vals, r') := by
+  induction pts with
+  | nil => intro s acc r _; simp [Mimic.Py.forM, readValues, valOut]
+  | cons p ps ih =>
+    intro s acc r hb
+    obtain ⟨nm, code, u⟩ := p
+    have hs : s / 8 < bm.bitmap.length := by have := hb 0 (by simp); simpa using this
+    have hb' : ∀ j, j < ps.length → (s + 1 + j) / 8 < bm.bitmap.length := by
+      intro j hj; have := hb (j + 1) (by simp; omega); rw [show s + 1 + j = s + (j + 1) by omega]; exact this
+    simp only [List.length_cons, List.range'_succ, List.zip_cons_cons, Mimic.Py.forM, read_params_loop2_one E cs buffers bm h0 s nm code u acc r hs,
+      List.map_cons, readValues, List.headD_cons, List.tail_cons]
+    by_cases hf : Mimic.Results.isFlipped 0 bm.bitmap s
+    · simp only [hf, if_true]
+      rw [ih (s + 1) (acc ++ [(some nm, Val.none)]) r hb']
+      cases readValues (E.decode cs) (bufFn buffers) (ps.map toPT) ((List.range' (s + 1) ps.length).map (Mimic.Results.isFlipped 0 bm.bitmap)) (s + 1) r with
+      | none => simp
+      | some q => obtain ⟨vals, r'⟩ := q; simp [valOut, ofPVal]
+    · simp only [hf, Bool.false_eq_true, if_false]
+      cases hbuf : bufFn buffers s with
+      | some data =>
+        simp only
+        cases hd : E.decode cs data with
+        | none => simp
+        | some text =>
+          simp only [Option.map_some]
+          rw [ih (s + 1) (acc ++ [(some nm, Val.str text)]) r hb']
+          cases readValues (E.decode cs) (bufFn buffers) (ps.map toPT) ((List.range' (s + 1) ps.length).map (Mimic.Results.isFlipped 0 bm.bitmap)) (s + 1) r with
+          | none => simp
+          | some q => obtain ⟨vals, r'⟩ := q; simp [valOut, ofPVal]
+      | none =>
+        simp only
+        have hv := read_param_value_eq E r cs code u []
+        simp only [toPT]
+        rw [← hv]
+        cases hrv : read_param_value E r cs code u with
+        | none => simp
+        | some q =>
+          obtain ⟨v, r2⟩ := q
+          simp only [Option.map_some]
+          rw [ih (s + 1) (acc ++ [(some nm, v)]) r2 hb']
+          cases readValues (E.decode cs) (bufFn buffers) (ps.map toPT) ((List.range' (s + 1) ps.length).map (Mimic.Results.isFlipped 0 bm.bitmap)) (s + 1) r2 with
+          | none => simp
+          | some q => obtain ⟨vals, r'⟩ := q; simp [valOut, ofPVal_toPVal]
+
+def eraseName (t : PType) : PType := { t with name := [] }
+
+theorem readValue_erase (dec : Bytes → Option Str) (t : PType) (b : Bytes) : readValue dec (eraseName t) b = readValue dec t b := rfl
+
+theorem readValues_erase (dec : Bytes → Option Str) (buf : Nat → Option Bytes) (ts : List PType) :
+    ∀ (nulls : List Bool) (i : Nat) (b : Bytes), readValues dec buf (ts.map eraseName) nulls i b = readValues dec buf ts nulls i b := by
+  induction ts with
+  | nil => intro nulls i b; rfl
+  | cons t ts ih =>
+    intro nulls i b
+    simp only [List.map_cons, readValues, readValue_erase, ih]
+
+theorem readTypes_length (valid : List Nat) (qa : Bool) : ∀ (n : Nat) (b : Bytes) (ts : List PType) (r : Bytes),
+    readTypes valid qa n b = some (ts, r) → ts.length = n := by
+  intro n
+  induction n with
+  | zero => intro b ts r h; simp [readTypes] at h; simp [h.1.symm]
+  | succ n ih =>
+    intro b ts r h
+    match b with
+    | [] => simp [readTypes] at h
+    | [t] => simp [readTypes] at h
+    | t :: f :: rest =>
+      simp only [readTypes] at h
+      split at h
+      · split at h
+        · split at h
+          · rename_i nm r2 hd
+            cases hr : readTypes valid qa n r2 with
+            | none => simp [hr] at h
+            | some q =>
+              obtain ⟨ts', r3⟩ := q
+              simp [hr] at h
+              have := ih r2 ts' r3 hr
+              rw [← h.1]; simp [this]
+          · simp at h
+        · cases hr : readTypes valid qa n rest with
+          | none => simp [hr] at h
+          | some q =>
+            obtain ⟨ts', r3⟩ := q
+            simp [hr] at h
+            have := ih rest ts' r3 hr
+            rw [← h.1]; simp [this]
+      · simp at h
+
+theorem optAll_length {α : Type} : ∀ (l : List (Option α)) (out : List α), optAll l = some out → out.length = l.length := by
+  intro l
+  induction l with
+  | nil => intro out h; simp [optAll] at h; simp [← h]
+  | cons a l ih =>
+    intro out h
+    cases a with
+    | none => simp [optAll] at h
+    | some x =>
+      cases hl : optAll l with
+      | none => simp [optAll, hl] at h
+      | some rest =>
+        simp [optAll, hl] at h
+        rw [← h]; simp [ih rest hl]
+
+theorem tyOut_toPT : ∀ (names : List Str) (ts : List PType), names.length = ts.length → (tyOut names ts).map toPT = ts.map eraseName := by
+  intro names
+  induction names with
+  | nil => intro ts h; cases ts with | nil => rfl | cons _ _ => simp at h
+  | cons n ns ih =>
+    intro ts h
+    cases ts with
+    | nil => simp at h
+    | cons t ts =>
+      simp only [List.length_cons, Nat.add_right_cancel_iff] at h
+      have := ih ts h
+      simp only [tyOut, List.zip_cons_cons, List.map_cons] at this ⊢
+      rw [this]; rfl
+
+theorem tyOut_length (names : List Str) (ts : List PType) (h : names.length = ts.length) : (tyOut names ts).length = ts.length := by
+  simp [tyOut, h]
+
+theorem out_eq : ∀ (names : List Str) (ts : List PType) (vals : List PVal), names.length = ts.length →
+    valOut (tyOut names ts) vals = (names.zip vals).map (fun x => (some x.1, ofPVal x.2)) := by
+  intro names
+  induction names with
+  | nil => intro ts vals h; simp [valOut, tyOut]
+  | cons n ns ih =>
+    intro ts vals h
+    cases ts with
+    | nil => simp at h
+    | cons t ts =>
+      simp only [List.length_cons, Nat.add_right_cancel_iff] at h
+      cases vals with
+      | nil => simp [valOut, tyOut]
+      | cons v vs =>
+        have := ih ts vs h
+        simp only [valOut, tyOut, List.zip_cons_cons, List.map_cons] at this ⊢
+        rw [this]
+
+def pOut (x : List (Str × PVal) × Bytes) : List (Option Str × Val Str) × Bytes :=
+  (x.1.map (fun kv => (some kv.1, ofPVal kv.2)), x.2)
+
+/-- **`_read_params` (two `for` loops, NULL bitmap, long-data buffers) is the model's `readParams`** for every packet,
+    parameter count, capability set and buffer table -/
+theorem read_params_eq (E : Env Str) (caps cs : Nat) (valid : List Nat) (hv : ∀ n, E.validType n = valid.contains n)
+    (hE : E.decode cs [] = some E.empty) (count : Nat) (buffers : Option (List (Nat × Bytes))) (r : Bytes) (hr : r.length < 2 ^ 63) :
+    read_params E r caps cs count buffers
+      = (readParams valid (E.decode cs) (Mimic.Py.hasBit caps 27) count (bufFn buffers) r).map pOut := by
+  unfold read_params readParams
+  by_cases hc : count = 0
+  · subst hc; simp [pOut]
+  · have hc' : (count != 0) = true := by simpa using hc
+    simp only [hc', if_true, hc, if_false, NullBitmap_from_buffer, NullBitmap_num_bytes, Nat.add_zero, Mimic.Py.readN, Mimic.Wire.takeN]
+    by_cases hk : (count + 7) / 8 ≤ r.length
+    · have hlt : (count + 7) / 8 < 2 ^ 63 := by omega
+      simp only [hlt, if_true, hk, read_uint_1_eq, readUInt_one]
+      cases hd : r.drop ((count + 7) / 8) with
+      | nil => simp
+      | cons flag b2 =>
+        simp only
+        by_cases hflag : flag = 0
+        · subst hflag; simp
+        · have hf2 : (!(flag.toNat != 0)) = false := by
+            have : flag.toNat ≠ 0 := fun h => hflag (UInt8.toNat_inj.mp (by simpa using h))
+            simp [this]
+          simp only [hf2, Bool.false_eq_true, if_false, hflag]
+          have htl := types_loop E caps cs valid hv hE (List.range count) [] b2
+          simp only [List.length_range] at htl
+          rw [htl]
+          cases hrt : readTypes valid (Mimic.Py.hasBit caps 27) count b2 with
+          | none => simp
+          | some q =>
+            obtain ⟨ts, b3⟩ := q
+            simp only
+            have hlen := readTypes_length valid _ count b2 ts b3 hrt
+            cases hoa : optAll (ts.map (fun t => E.decode cs t.name)) with
+            | none => simp
+            | some names =>
+              have hnl : names.length = ts.length := by simpa using optAll_length _ names hoa
+              simp only [List.nil_append]
+              have hpl : (tyOut names ts).length = count := by rw [tyOut_length names ts hnl, hlen]
+              have hvl := vals_loop E cs buffers { bitmap := r.take ((count + 7) / 8), offset := 0 } rfl (tyOut names ts) 0 [] b3
+                (by intro j hj; simp only [List.length_take, Nat.zero_add]; rw [hpl] at hj; omega)
+              rw [List.range_eq_range', hvl, hpl, tyOut_toPT names ts hnl, readValues_erase, List.range_eq_range']
+              cases readValues (E.decode cs) (bufFn buffers) ts ((List.range' 0 count).map (Mimic.Results.isFlipped 0 (r.take ((count + 7) / 8)))) 0 b3 with
+              | none => simp
+              | some w =>
+                obtain ⟨vals, b4⟩ := w
+                simp [pOut, out_eq names ts vals hnl]
+    · have hshort : r.drop ((count + 7) / 8) = [] := List.drop_of_length_le (by omega)
+      have hlt : (count + 7) / 8 < 2 ^ 63 ∨ ¬ (count + 7) / 8 < 2 ^ 63 := Decidable.em _
+      rcases hlt with hlt | hlt
+      · simp [hlt, hk, hshort, read_uint_1_eq, readUInt_one]
+      · simp [hlt, hk]
+
+/-! ### `parse_com_query` -/
+
+def kvOut (kv : Str × PVal) : Option Str × Val Str := (some kv.1, ofPVal kv.2)
+
+theorem dictSet_map (acc : List (Str × PVal)) (kv : Str × PVal) :
+    Mimic.Py.dictSet (acc.map kvOut) (some kv.1) (ofPVal kv.2) = (Mimic.Params.dictInsert acc kv).map kvOut := by
+  unfold Mimic.Py.dictSet Mimic.Params.dictInsert
+  have hany : ((acc.map kvOut).any fun x => decide (x.1 = some kv.1)) = acc.any (fun x => decide (x.1 = kv.1)) := by
+    induction acc with
+    | nil => rfl
+    | cons a as ih => simp [kvOut, ih]
+  rw [hany]
+  split
+  · simp only [List.map_map]
+    apply List.map_congr_left
+    intro a _
+    simp only [Function.comp, kvOut, Option.some.injEq]
+    split <;> rfl
+  · simp [kvOut]
+
+theorem dictOf_map (ps : List (Str × PVal)) : Mimic.Py.dictOf (ps.map kvOut) = (Mimic.Params.dictOf ps).map kvOut := by
+  unfold Mimic.Py.dictOf Mimic.Params.dictOf
+  suffices h : ∀ acc : List (Str × PVal), (ps.map kvOut).foldl (fun d kv => Mimic.Py.dictSet d kv.1 kv.2) (acc.map kvOut)
+      = (ps.foldl Mimic.Params.dictInsert acc).map kvOut by simpa using h []
+  induction ps with
+  | nil => intro acc; rfl
+  | cons p ps ih =>
+    intro acc
+    simp only [List.map_cons, List.foldl_cons]
+    have := dictSet_map acc p
+    simp only [kvOut] at this ⊢
+    rw [this]
+    exact ih _
+
+theorem filter_some (l : List (Str × PVal)) :
+    List.map (fun x => (x.fst, x.snd)) (List.filter (fun x => !x.fst.isNone) (List.map (fun kv => ((some kv.fst : Option Str), ofPVal kv.snd)) l))
+      = List.map (fun kv => ((some kv.fst : Option Str), ofPVal kv.snd)) l := by
+  have hf : List.filter (fun x => !x.fst.isNone) (List.map (fun kv => ((some kv.fst : Option Str), ofPVal kv.snd)) l)
+      = List.map (fun kv => ((some kv.fst : Option Str), ofPVal kv.snd)) l := by
+    apply List.filter_eq_self.mpr
+    intro a ha
+    obtain ⟨kv, _, rfl⟩ := List.mem_map.mp ha
+    rfl
+  rw [hf]
+  induction l with
+  | nil => rfl
+  | cons a as ih => simp
+
+theorem pOut_fst (x : List (Str × PVal) × Bytes) : (pOut x).1 = x.1.map kvOut := rfl
+
+/-- **`parse_com_query` is the model's `parseQuery`**: attribute count, parameter block, Python dict construction and the
+    statement text, for every payload and both settings of CLIENT_QUERY_ATTRIBUTES -/
+theorem parse_com_query_eq (E : Env Str) (caps cs : Nat) (valid : List Nat) (hv : ∀ n, E.validType n = valid.contains n)
+    (hE : E.decode cs [] = some E.empty) (data : Bytes) (hr : data.length < 2 ^ 63) :
+    (parse_com_query E caps cs data).map (fun q => (q.sql, q.query_attrs))
+      = (parseQuery valid (E.decode cs) (Mimic.Py.hasBit caps 27) data).map (fun x => (x.1, x.2.map kvOut)) := by
+  unfold parse_com_query parseQuery
+  by_cases hq : Mimic.Py.hasBit caps 27
+  · simp only [hq, if_true, read_uint_len_eq]
+    cases h1 : Mimic.Wire.decLen data with
+    | none => rfl
+    | some p1 =>
+      obtain ⟨count, b1⟩ := p1
+      simp only
+      cases h2 : Mimic.Wire.decLen b1 with
+      | none => rfl
+      | some p2 =>
+        obtain ⟨x, b2⟩ := p2
+        have l1 := Mimic.Packets.decLen_shorter data count b1 h1
+        have l2 := Mimic.Packets.decLen_shorter b1 x b2 h2
+        simp only
+        have hrp := read_params_eq E caps cs valid hv hE count none b2 (by omega)
+        simp only [hq] at hrp
+        have hb : bufFn none = fun _ => none := rfl
+        rw [hrp, hb]
+        cases readParams valid (E.decode cs) true count (fun _ => none) b2 with
+        | none => rfl
+        | some q =>
+          obtain ⟨ps, rest⟩ := q
+          simp only [Option.map_some, pOut]
+          cases E.decode cs rest with
+          | none => rfl
+          | some sql =>
+            simp only [Option.map_some]
+            have hd := dictOf_map ps
+            rw [filter_some ps]
+            have hd' : Mimic.Py.dictOf (List.map (fun kv => ((some kv.fst : Option Str), ofPVal kv.snd)) ps) = (Mimic.Params.dictOf ps).map kvOut := hd
+            rw [hd']
+  · simp only [hq, Bool.false_eq_true, if_false]
+    cases E.decode cs data <;> rfl
 
 end MimicProofs.ParsersCode
